@@ -9,6 +9,8 @@ Good(ev) ==
           /\ \/ ev.op = "BulkVS" /\ Log("BulkVS", a, [match |-> TRUE]) /\ UNCHANGED st
              \/ ev.op = "BulkSD" /\ Log("BulkSD", a, [match |-> TRUE]) /\ UNCHANGED st
              \/ ev.op = "BulkHL" /\ Log("BulkHL", a, [match |-> TRUE]) /\ UNCHANGED st
+             \/ ev.op = "BulkBits" /\ Log("BulkBits", a, [match |-> TRUE]) /\ UNCHANGED st
+             \/ ev.op = "BulkComp" /\ Log("BulkComp", a, [match |-> TRUE]) /\ UNCHANGED st
           /\ ObsOK(out', o)
 TraceInit == Init /\ l = 1 /\ TLCSet(1, 1)
 TraceNext ==
